@@ -30,18 +30,18 @@ DATA_NOTE = ("Hand-written executable model of verif/data.py (coq/Model/Data.v, 
     "and diffing every returned array; a third, independent coordinate-keyed oracle decides whether a disagreement is a concrete failing "
     "input; metamorphic falsifier on the implementation. ")
 CLAIMED["C01"] = ("proof", DATA_NOTE + "C01: a case contributes only if every input and the climatology have it, same cases for all inputs, "
-    "non-interference of one input's values on the others (propagation theorems), observation sharing.", "7 C01", "Coq proof over hand model + correspondence check")
+    "non-interference of one input's values on the others (propagation theorems), observation sharing. Datasets include infinite values (read as missing by the model: unusable in EVERY input). Falsifier harness/probtie.py: scores using several quantities (observation + two threshold probabilities, stored in different orders per input or derived from ensembles with all-missing cases) are taken over the cases where all of them are present in every input.", "7 C01", "Coq proof over hand model + correspondence check")
 CLAIMED["C02"] = ("proof", DATA_NOTE + "C02: value_by_coordinate (the cell used is the one stored at the first occurrence of the coordinates in the "
     "input's own lists, through the index recomputation after -d/-tod), first-index and order-free intersection lemmas; permutation of "
     "entries / input order checked metamorphically on the implementation. Added theorems: the verified dimensions depend on membership only -- permuting (or duplicating) the entries inside any input, or permuting the inputs, leaves them unchanged (strictly ascending lists with equal members are equal).", "7 C02", "Coq proof over hand model + correspondence check")
 CLAIMED["C03"] = ("proof", DATA_NOTE + "C03: membership iff for times / lead times / locations incl. all nine subsetting options with inclusive ranges, "
-    "strictly ascending dimensions, -obsrange masking, empty selection never numeric.", "7 C03", "Coq proof over hand model + correspondence check")
+    "strictly ascending dimensions, -obsrange masking, empty selection never numeric. The specification says a range option constrains only when GIVEN (C03_latrange_alone_selects_by_latitude_only, _lonrange_) and that -d keeps exactly the times on the requested UTC days for EVERY unix time, also before 1970 (C03_date_option_selects_whole_utc_days); both had been copied from the code and were rewritten from the property text (two defects fixed). Pools include longitudes in 0..360 and times before 1970; 13 option sets are also run through the real command line and compared with the rows of -type csv.", "7 C03", "Coq proof over hand model + correspondence check")
 CLAIMED["C04"] = ("proof", DATA_NOTE + "C04: get_scores delivers numbers only or the single NaN, kept positions valid in every requested field, "
     "missing anywhere => missing everywhere, non-finite anomaly missing; missing-vs-deleted metamorphic relation, reader encodings and "
-    "all-missing slices for a metric sample checked on the implementation, also when the same Data object is asked a second time (cached answer) with every kind of aggregator.", "7 C04", "Coq proof over hand model + correspondence check")
+    "all-missing slices for a metric sample checked on the implementation, also when the same Data object is asked a second time (cached answer) with every kind of aggregator. The token rule of the text reader (Text._clean) is GENERATED from /repo (Gen_io.text_cell) with theorems over the extended reals: a token that is no number, NaN or the NUMBER -999 in any spelling is missing, every other number is kept, the placeholder is never delivered; tied to Text._clean on 47 tokens per run.", "7 C04", "Coq proof over hand model + correspondence check")
 CLAIMED["C14"] = ("proof", DATA_NOTE + "C14: obs/fcst become value (-|/) climatology cell by cell, other fields untouched, missing climatology or "
     "non-finite quotient drops the case for every input, climatology looked up by coordinates and never counted as an input; "
-    "-c X versus X as extra input compared on the implementation.", "7 C14", "Coq proof over hand model + correspondence check")
+    "-c X versus X as extra input compared on the implementation; six -c / -C combinations (also through --config; the LAST climatology option decides file and operation) through the real command line against hand-computed anomalies; name and legend lists for climatologies sharing a file name with a verified input.", "7 C14", "Coq proof over hand model + correspondence check")
 CLAIMED["C11"] = ("proof", DATA_NOTE + "C11: every case in exactly one slice for any bucket function (all 17 axes), slice counts and any additive "
     "statistic add up to the pooled one, calendar facts for EVERY unix time (day, week = Monday, time of day, lead-time day), civil "
     "calendar / month / year buckets and date<->unixtime<->daynum inverses decided for every day 1900-2100 (vm_compute over a finite "
@@ -65,7 +65,7 @@ CLAIMED["C05"] = ("proof", TRANS_NOTE + "C05: pair filter (no valid pair => NaN,
     "the documented quantity for ANY aggregator (mae, bias, diff, ratio, rmse), closed forms / undefined cases / never-better-than-perfect / "
     "perfect-forecast theorems for mae, bias, rmse, stderror, nsec, diff on vectors of every length; 21 metric classes x 16 aggregators "
     "validated; alphaindex perfect score REFUTED (known finding), leps not modelled (falsifier only); rank correlations are named "
-    "specifications compared with scipy. Added: Cauchy-Schwarz for lists of reals, hence the generated Corr is within [-1, 1] whenever it is a number and equals 1 for identical vectors.", "7 C05", "Coq proof over translated source + translation validation")
+    "specifications compared with scipy. Added: Cauchy-Schwarz for lists of reals, hence the generated Corr is within [-1, 1] whenever it is a number and equals 1 for identical vectors. The generator includes constant-offset forecasts (error without spread), all-negative pairs and constant observations that are not exactly representable (known finding zero-variance-rounding: the exact `== 0` guards miss them in floating point; the XR theorems hold).", "7 C05", "Coq proof over translated source + translation validation")
 CLAIMED["C08"] = ("proof", TRANS_NOTE + "C08: event probability from the CDF for all 8 bin types, Brier score / uncertainty / skill score closed forms, "
     "complement symmetry, every probability in [0,1] lies in exactly one of the 10 bins (exact double edges, top edge 1.001), ensemble-derived "
     "probability = fraction of present members (in [0,1], missing members ignored, all missing => NaN), pinball terms non-negative. The "
@@ -97,7 +97,7 @@ CLAIMED["C09"] = ("proof", "Hand model Model/TextParse.v of verif.input.Text on 
     "with those coordinates (the last one for repeated coordinates), absent combinations are missing; row order is irrelevant for unique "
     "coordinates; column order is irrelevant for distinct column names (every lookup the reader makes); first row fixes location "
     "metadata; column classification (p<t> vs pit, e<m> vs elev, q<q>, offset = leadtime) and missing tokens by computation. Tie: the "
-    "model on the lexed tokens vs verif.input.Text on generated files (random layouts), plus the abstract dataset as falsifier.",
+    "model on the lexed tokens vs verif.input.Text on generated files (random layouts, comment lines incl. a bare #, among metadata lines and rows), plus the abstract dataset as falsifier.",
     "7 C09", "Coq proof over hand model + correspondence check")
 CLAIMED["C10"] = ("proof", "GENERATED from /repo on every run: the cell rule of util.clean, the table of NetCDF variables the reader consults, the required "
     "dims/vars, the content-based detection of get_input, the variables and types text2nc writes. Theorems (XR): masked/fill, NaN, -999 and "
@@ -105,7 +105,7 @@ CLAIMED["C10"] = ("proof", "GENERATED from /repo on every run: the cell rule of 
     "written as float32 (abstract rounding r) and read back is r(value), missing stays missing; tables as documented; times are f8 and "
     "everything else f4; detection depends on content only. PARTIAL: netCDF4, the file system and float32 rounding are outside the model; "
     "whole-dataset and score agreement between a text file and a NetCDF file of the same abstract dataset (optional variables, every "
-    "missing encoding, custom fill values), text2nc round trips and misleading file names are checked on the implementation each run.",
+    "missing encoding, custom fill values, up to four thresholds incl. negative ones, files without obs or without fcst), the LIST of fields each reader reports, variable name/units (without the display wrapper), text2nc round trips on every field / ensemble / field list / variable metadata and misleading file names are checked on the implementation each run (four text2nc defects and one reader defect fixed).",
     "7 C10", "Coq proof over translated source + format-agreement correspondence check (partial)")
 CLAIMED["C20"] = ("proof", "Hand-written executable model (coq/Model/Scripts.v, exact rationals) of the per-series / per-case transformations of "
     "scripts/accumulate.py (trailing window, cumulative sum, -i), ens2prob.py (cdf, zero-order-hold quantiles, PIT) and expandverif.py "
